@@ -1145,6 +1145,14 @@ func uniformIndex(t *rapid.T, label string, n int) int {
 	return v % n
 }
 
+// usesPolygon lists the constructors built (directly or through other parts) on
+// sdf.Polygon2D: only their leaks can be the polygon sign defect.
+var usesPolygon = map[string]bool{
+	"Angle2D": true, "Angle3D": true, "Bolt": true, "Nut": true, "ThreadedCylinder": true, "ChamferedCylinder": true,
+	"DrainCover": true, "DroneMotorArm": true, "DroneMotorArmSocket": true, "InvoluteGear": true, "Hex2D": true,
+	"Hex3D": true, "HexHead3D": true, "Knurl3D": true, "KnurledHead3D": true, "Standoff3D": true,
+}
+
 func weighted(es []objEntry) []int {
 	var tbl []int
 	for i, e := range es {
@@ -1204,7 +1212,7 @@ func runCatalogue(t *testing.T, es []objEntry) {
 			bb := b.s3.BoundingBox()
 			res = boxprobe.Probe3(t, b.s3, bb.Size().Length(), func(p v3.Vec, v, out float64, how string) {
 				key, detail := "C01:obj."+e.name, ""
-				if jumps3(b.s3, p, v) {
+				if usesPolygon[e.name] && jumps3(b.s3, p, v) {
 					key, detail = key+":polygon-vertex-level-sign", "the sign flips when the point is nudged by 1e-9"
 				} else if b.classify != nil {
 					if k, d := b.classify(p, v, out); k != "" {
@@ -1220,7 +1228,7 @@ func runCatalogue(t *testing.T, es []objEntry) {
 			bb := b.s2.BoundingBox()
 			res = boxprobe.Probe2(t, b.s2, bb.Size().Length(), func(p v2.Vec, v, out float64, how string) {
 				key, detail := "C01:obj."+e.name, ""
-				if jumps2(b.s2, p, v) {
+				if usesPolygon[e.name] && jumps2(b.s2, p, v) {
 					key, detail = key+":polygon-vertex-level-sign", "the sign flips when the point is nudged by 1e-9"
 				} else if b.classify != nil {
 					if k, d := b.classify(v3.Vec{X: p.X, Y: p.Y}, v, out); k != "" {
